@@ -932,6 +932,11 @@ def run(rep):
         "train_* runs: epsilon=0.5 exploration with the library's own generator; the environment's outcomes come from a seeded numpy generator; recorded calls whose table denominators exceed 2^12 are skipped (counted in skipped_events)",
         "trusted: TLC, Exact.tla, float<->rational projection, graph-cover replay",
     ]
+    # coordinator: the recorded runs of the tabular routines in the training-loop sweep also decide that the
+    # learner is always handed the routine's current tables (LoopTrace clause LearnerOnCurrentEstimate)
+    from .. import sweep
+
+    sweep.report_property(rep, "C14", names=["q_learning", "sarsa", "double_q_learning", "monte_carlo", "dynaq"])
 
 
 def _path_to_events(kind, d):
@@ -964,6 +969,13 @@ def replay(path, rep):
         print("design-level counterexample (TLC error trace):\n", d)
         return 1
     kind = d["kind"]
+    if kind == "sweep":
+        from .. import sweep
+
+        rc = sweep.replay_one(d, "C14")
+        if rc:
+            print(f"VIOLATION property=C14 replay={path}")
+        return rc
     if kind == "vector":
         e = d["e"]
         got, n2 = call_single(M, e["v"])
